@@ -1,6 +1,6 @@
 """C10 — EnumTable is a total map from enabled variants to values."""
 import itertools
-from vlib.defs import Item, Variant, Field, DISABLED
+from vlib.defs import Item, Variant, Field, DISABLED, ser, msg, props, tos
 from vlib.run import Corpus
 from vlib import structs as T
 from vlib import gen as G
@@ -30,6 +30,13 @@ def build_corpus(tier, rng):
     for n in (6, 7, 8, 10):
         vs = [Variant(NAMES[i] , "unit", [], [DISABLED] if i in (1, 4) else []) for i in range(n)]
         items.append(("wide", Item("E", vs, vis=("pubcrate" if n == 7 else "pub"))))
+    # `disabled` after / before other items of the same #[strum(..)] attribute, or in an attribute of its own
+    noise = [[ser("teal"), DISABLED], [DISABLED, ser("teal")], [props([("k", ("s", "v"))]), DISABLED], [msg("m"), DISABLED, tos("t")], [DISABLED]]
+    for j, ms in enumerate(noise):
+        for split in (None, [1]):
+            vs = [Variant("Red", "unit"), Variant("Teal", "unit", [], list(ms), groups=split), Variant("Blue", "unit", [], [ser("b")]),
+                  Variant("Last%d" % j, "unit", [], list(reversed(ms)), groups=split)]
+            items.append(("noise", Item("E", vs)))
     for fam, it in items:
         en = [i for i, v in enumerate(it.variants) if not v.has("disabled")]
         dis = [i for i, v in enumerate(it.variants) if v.has("disabled") and v.kind == "unit"]
